@@ -92,13 +92,36 @@ class MergeFlow(Engine):
         cur[depth] = op if prev in (None, op) else 'mixed'
         st.mon['loopop'] = cur
 
+    def _check_payload_iteration(self, st: State, depth):
+        """PAYLOAD-ALL: an iteration over carried elements that neither inserts the element nor reports it"""
+        pl = st.mon.get('payloadloops') or {}
+        if depth not in pl:
+            return
+        log = (st.mon.get('itlog') or {}).get(depth, ())
+        sunk = any(r[0] in ('insert', 'append', 'setitem') for r in log)
+        warned = (st.mon.get('iterwarn') or {}).get(depth)
+        if not sunk and not warned:
+            fi = self.prog.cls(self.cname).find('merge')
+            fd = Finding('PAYLOAD-ALL', fi.short if fi else self.cname, pl[depth],
+                         'an iteration over the carried elements can end without inserting the element and without a warning: '
+                         'a carried element is dropped silently', fi.file if fi else '?', fi.node.lineno if fi else 0, self.entry, self.witness(st))
+            self.findings.setdefault(fd.key, fd)
+
     def loop_iter_start(self, st, depth, spec, count):
+        if count > 0:
+            self._check_payload_iteration(st, depth)
+        iw = st.mon.get('iterwarn')
+        if iw and depth in iw:
+            iw = dict(iw)
+            del iw[depth]
+            st.mon['iterwarn'] = iw
         if count > 0:
             self._fold_loop(st, depth, spec)
         super().loop_iter_start(st, depth, spec, count)
 
     def loop_exit(self, st, depth, spec, count):
         if count > 0:
+            self._check_payload_iteration(st, depth)
             self._fold_loop(st, depth, spec)
         cur = dict(st.mon.get('loopop') or {})
         status = cur.pop(depth, None)
@@ -112,6 +135,12 @@ class MergeFlow(Engine):
         super().loop_exit(st, depth, spec, count)
 
     def loop_done(self, st, depth):
+        for name in ('payloadloops', 'iterwarn'):
+            m = st.mon.get(name)
+            if m and depth in m:
+                m = dict(m)
+                del m[depth]
+                st.mon[name] = m
         cur = st.mon.get('loopop')
         if cur and depth in cur:
             cur = dict(cur)
@@ -452,6 +481,9 @@ class MergeFlow(Engine):
 
     def on_warn(self, st, node, category, message):
         self.count('warn', st, node)
+        logs = st.mon.get('itlog') or {}
+        if logs:
+            st.mon['iterwarn'] = {d: True for d in logs}
         name = category.qual.split(':')[-1] if isinstance(category, ClsV) else '?'
         func, n, file, line = self.attrib(st, node)
         cons = f'warn({name})'
@@ -510,6 +542,7 @@ class MergeFlow(Engine):
         return super().instantiate(c, args, kwargs, st, node)
 
     def on_setfield(self, obj, name, old, new, st, node):
+        self.check_stale_cache(obj, name, new, st, node)
         e = st.get(obj.sym)
         if e.cls in self.merge_family and self.in_merge(st):
             if isinstance(new, Ref) and new.kind == 'elem' and self.owner(new, st) == 'RO':
@@ -553,6 +586,11 @@ class MergeFlow(Engine):
                 if bad:
                     self.find_('PAYLOAD-ALL', st, node.iter, 'for ... in ' + norm(node.iter),
                                f'the merge filters, slices or reorders the carried/named elements before applying them ({bad})')
+        if from_msg and self.role[0] in ('INSERT', 'APPEND', 'REPLACE', 'META', 'SEND'):
+            depth = (len(st.frames), st.frame.loops + 1)
+            pl = dict(st.mon.get('payloadloops') or {})
+            pl[depth] = 'for ... in ' + norm(node.iter)
+            st.mon['payloadloops'] = pl
         exits, escapes = super().run_loop(itval, st, body, node, joiner=joiner)
         if from_msg:
             for kind, s in exits:
